@@ -104,6 +104,7 @@ func refRangeChoice(produces []string, media string) int {
 // part/nparts: this run covers the headers whose key (length, plus capacity+1 if there is a comma) is congruent to part modulo nparts
 // mode 3: skeleton "<type>;<name>=<value>,<type>" with a symbolic parameter name (1 or 2 bytes) and value (exactly capN bytes)
 // mode 0: <=2 ranges, <=1 parameter each; 1: <=2 ranges, <=2 parameters; 2: built-in names with a symbolic tail
+// mode 4: skeleton "<built-in name><capN symbolic bytes>,<built-in name>;q=0.<digit>"
 func H_C05(prodCfg, mode, capN, part, nparts int) {
 	vRegister(prodCfg == 3 || prodCfg == 4 || prodCfg == 13 || prodCfg == 14)
 	// 13, 14: a default response content type is configured (JSON resp. XML)
@@ -124,6 +125,13 @@ func H_C05(prodCfg, mode, capN, part, nparts int) {
 	var accept string
 	if mode == 2 {
 		accept = []string{MIME_XML, MIME_JSON, "*/*"}[nondetChoice("head", 3)] + nondetString("tail", capN)
+	} else if mode == 4 {
+		// skeleton "<name><suffix>,<name>;q=0.<d>": the first range is a registered name followed by capN symbolic bytes
+		// (a/Js is not a/J, as application/json-seq is not application/json), the second a registered name with a low weight
+		menu := []string{"a/J", "a/x", "*/*"}
+		sfx := nondetString("sfx", capN)
+		verifAssume(vAnd(!strings.Contains(sfx, ","), !strings.Contains(sfx, ";")))
+		accept = menu[nondetChoice("m0", 3)] + sfx + "," + menu[nondetChoice("m1", 3)] + ";q=0." + nondetFixed("q1", 1)
 	} else if mode == 3 {
 		// skeleton: two ranges over registered types or */*, each with one parameter whose name and
 		// value are symbolic (capN bytes together); reaches parameter handling at a small cost
